@@ -57,3 +57,22 @@ CHECKS["C08"] = dict(
     assumptions=["reference decoders follow the documented parameter semantics",
                  "a message whose consumer-side read ends with a non-EOF error counts as not delivered (a real consumer raises)"],
 )
+
+CHECKS["C16"] = dict(
+    test="TestC16", level="exploration",
+    quick=dict(shards=8, checks=15000, timeout=300),
+    thorough=dict(shards=16, checks=500000, timeout=2400, shrinktime="120s"),
+    rule="rapid-generated (a) byte strings (arbitrary bytes, invalid UTF-8, NUL, sizes over pool classes) written and read through the "
+         "text codec via 5 inbound carrier types; (b) JSON object trees (depth<=5; unicode/escaped/empty keys; null/bool/string/array/"
+         "object; number literals incl. +-2^53+-1, 2^63-1, 2^64-1, 30-digit integers, exponents, -0, 1e400; native int64/uint64/float64) "
+         "written as map / RawMessage / struct and read back under both UseNumber settings, compared structurally with numbers compared "
+         "exactly (big.Rat) when number preservation is on; (c) raw frames: a valid object mutated by truncation at every position, "
+         "non-object top level, leading garbage, bad escapes, control characters, broken braces (must raise, deliver nothing), or followed "
+         "by trailing bytes / preceded by whitespace (must equal the encoding/json reference decode); 5% through a real channel with a "
+         "varint frame codec underneath. Non-trivial = nesting >= 2, an integer beyond 2^53, a malformed frame, invalid UTF-8 or > 1024 bytes of text.",
+    required=["mode:text", "mode:json-roundtrip", "mode:json-frame", "mutation:truncate", "mutation:toplevel", "mutation:garbage",
+              "mutation:escape", "mutation:trailing", "json-bigint:usenum=true", "json-bigint:usenum=false", "json-nested", "text-invalid-utf8",
+              "layer:channel", "carrier:frag", "out:map", "out:raw", "out:struct"],
+    assumptions=["encoding/json is the reference for what a complete valid JSON object is",
+                 "without number preservation, literals outside float64 are outside the round-trip contract"],
+)
